@@ -9,12 +9,6 @@ mod errs;
 mod model;
 #[path = "../../harness/src/ops.rs"]
 mod ops;
-#[path = "../../harness/src/ops_io.rs"]
-#[allow(dead_code)]
-mod ops_io;
-#[path = "../../harness/src/ops_canon.rs"]
-#[allow(dead_code)]
-mod ops_canon;
 #[path = "../../harness/src/val.rs"]
 mod val;
 
